@@ -29,6 +29,8 @@ TStep ==
                       /\ peers' = 0 /\ phase' = "connecting" /\ queue' = {} /\ ongoing' = {} /\ timedOut' = {}
                       /\ promised' = {} /\ headH' = 0 /\ hiPrunable' = 0 /\ numPrunable' = 0 /\ blk' = <<>>
                       /\ obs' = NoObs /\ requested' = <<>>
+       \/ n = "tick"       /\ now' = Ev.now /\ obs' = NoObs /\ UNCHANGED requested
+                           /\ UNCHANGED <<stored, sampledS, meta, width, peers, phase, queue, ongoing, timedOut, promised, headH, hiPrunable, numPrunable, blk>>
        \/ n = "insert"     /\ Insert(Ev.h, Ev.w) /\ UNCHANGED requested
        \/ n = "premark"    /\ Ev.h \in stored /\ sampledS' = sampledS \cup {Ev.h} /\ obs' = NoObs /\ UNCHANGED requested
                            /\ UNCHANGED <<stored, meta, width, now, peers, phase, queue, ongoing, timedOut, promised, headH, hiPrunable, numPrunable, blk>>
